@@ -226,7 +226,12 @@ def run_shard(ctx):
                 return ("replace_with", "first", n, [], lambda: n.replace_with(None))
             if kind == "rw_attach_fails":
                 # new node is detached and one of its descendants' ids is taken by an attached node outside n's subtree
-                n = rng.choice([h for h in F.handles if not h.detached] or F.handles)
+                if rng.random() < 0.4:
+                    # a detached receiver without registered namesake: the rollback must leave it detached
+                    det = [h for h in F.handles if h.detached and AwareASTNode.get_any(h.id) is None]
+                    n = rng.choice(det) if det else rng.choice(F.handles)
+                else:
+                    n = rng.choice([h for h in F.handles if not h.detached] or F.handles)
                 taken = [h for h in F.handles if not h.detached and id(h) not in F.objs_of(n)]
                 if not taken:
                     return None
@@ -264,7 +269,19 @@ def run_shard(ctx):
                     def rule(self_, node):
                         return None
 
-                V = type("RV", (ASTTransformVisitor,), {f"visit_{target}": rule})
+                rules = {f"visit_{target}": rule}
+                # a second rule that really rewrites nodes visited *before* the failing one
+                others = sorted({type(x).__name__ for x in sub if type(x).__name__ != target and U.prop_fields(type(x).__name__)})
+                if others:
+                    oc = rng.choice(others)
+
+                    def rewrite(self_, node):
+                        R.counter += 1
+                        g = ASTTransformVisitor.generic_visit(self_, node)
+                        return g.replace(v=R.counter + 30000) if g is not None and hasattr(g, "v") else g
+
+                    rules[f"visit_{oc}"] = rewrite
+                V = type("RV", (ASTTransformVisitor,), rules)
                 return ("transform", "nested", n, [], lambda: V().transform(n))
             if kind == "transformer_raises":
                 c = [n for n in F.handles if not n.detached and n.parent is None and len(struct_subtree(U, n)) >= 3]
